@@ -3,6 +3,7 @@ package main
 import (
 	"fmt"
 	"go/constant"
+	"go/token"
 	"go/types"
 	"sort"
 	"strings"
@@ -383,4 +384,194 @@ func (c *Ctx) guardEachSite(p *Program, rule, what string, f *ssa.Function, resu
 			Match: func(x ssa.CallInstruction, _ string, _ *ssa.Function) bool { return x == site }}
 		c.guard(p, rule, fmt.Sprintf("%s [site %d of %s]", what, i+1, strings.Join(callees, "|")), f, GuardSpec{Assumes: []Assume{a}, Through: site})
 	}
+}
+
+// evalAcceptRule decides by constant propagation whether f, on the given abstract
+// arguments, must accept (every reachable exit is an accepting one and one exists)
+// or must reject (no accepting exit is reachable).
+func (c *Ctx) evalAcceptRule(p *Program, rule, what string, f *ssa.Function, args map[string]lat, vas []ValAssume, wantAccept bool) {
+	if f == nil {
+		c.undecided(rule, what, "anchor function does not resolve", "")
+		return
+	}
+	c.evalAcceptRuleSpec(p, rule, what, f, args, nil, vas, wantAccept, succAuto(f))
+}
+
+func (c *Ctx) evalAcceptRuleSpec(p *Program, rule, what string, f *ssa.Function, args map[string]lat, as []Assume, vas []ValAssume, wantAccept bool, succ successSpec) {
+	if f == nil {
+		c.undecided(rule, what, "anchor function does not resolve", "")
+		return
+	}
+	construct := fname(f) + ": " + what
+	q := &GuardQuery{P: p, Root: f, Assumes: as, ValAssumes: vas}
+	q.Args = make([]lat, len(f.Params))
+	for i := range q.Args {
+		q.Args[i] = latTop
+	}
+	for n, v := range args {
+		i := paramIdx(f, n)
+		if i < 0 {
+			c.undecided(rule, construct, "parameter "+n+" does not exist", p.fnPos(f))
+			return
+		}
+		q.Args[i] = v
+	}
+	r := runGuard(q)
+	var acc, rej []string
+	for _, ri := range r.Returns {
+		if succ.may(ri.Vals) {
+			acc = append(acc, fmt.Sprintf("%s%v", p.pos(ri.Instr.Pos()), ri.Vals))
+		} else {
+			rej = append(rej, p.pos(ri.Instr.Pos()))
+		}
+	}
+	if wantAccept {
+		for _, va := range vas {
+			if len(r.Sites[va.Name]) == 0 {
+				c.undecided(rule, construct, "value "+va.Name+" not found in the function", p.fnPos(f))
+				return
+			}
+		}
+	}
+	switch {
+	case wantAccept && len(acc) > 0 && len(rej) == 0:
+		c.ok(rule, construct, "every reachable exit accepts: "+strings.Join(acc, " "), p.fnPos(f))
+	case wantAccept:
+		c.bad(rule, construct, fmt.Sprintf("must accept, but rejecting exits %v are reachable (accepting: %v)", rej, acc), p.fnPos(f))
+	case !wantAccept && len(acc) == 0:
+		c.ok(rule, construct, fmt.Sprintf("no accepting exit reachable (%d rejecting exit(s), or panics)", len(rej)), p.fnPos(f))
+	default:
+		c.bad(rule, construct, "must reject, but an accepting exit is reachable: "+strings.Join(acc, " "), p.fnPos(f))
+	}
+}
+
+// callCountRule: the function contains exactly the given number of calls to each callee.
+func (c *Ctx) callCountRule(p *Program, rule, what string, f *ssa.Function, want map[string]int) {
+	if f == nil {
+		c.undecided(rule, what, "anchor function does not resolve", "")
+		return
+	}
+	var bad []string
+	for callee, n := range want {
+		if got := len(p.callSites(f, callee)); got != n {
+			bad = append(bad, fmt.Sprintf("%d calls to %s, specification has %d", got, callee, n))
+		}
+	}
+	sort.Strings(bad)
+	if len(bad) > 0 {
+		c.bad(rule, fname(f)+": "+what, strings.Join(bad, "; "), p.fnPos(f))
+		return
+	}
+	c.ok(rule, fname(f)+": "+what, "call counts match", p.fnPos(f))
+}
+
+// guardConstObserve (C07): the bitmask stored before the candidate loop is 0x01 exactly on the P-521 branch.
+func (c *Ctx) guardConstObserve(p *Program, rule, what string, f *ssa.Function) {
+	if f == nil {
+		c.undecided(rule, what, "anchor function does not resolve", "")
+		return
+	}
+	// find "bytes[0] &= bitmask": a Store whose value is (load & phi(255, 1)), phi selected by a comparison with ecdh.P521()
+	found := false
+	for _, b := range f.Blocks {
+		for _, in := range b.Instrs {
+			bo, ok := in.(*ssa.BinOp)
+			if !ok || bo.Op != token.AND {
+				continue
+			}
+			for _, o := range []ssa.Value{bo.X, bo.Y} {
+				if ph, ok := o.(*ssa.Phi); ok {
+					d := descVal(ph)
+					if d == "phi(1|255)" {
+						// which edge carries 1: the one from the block guarded by == P521()
+						for i, e := range ph.Edges {
+							if k, ok := e.(*ssa.Const); ok && k.Value != nil && k.Value.ExactString() == "1" {
+								pred := ph.Block().Preds[i]
+								// pred must be the true-successor of an If comparing with call ecdh.P521
+								if len(pred.Preds) == 1 {
+									if ifi, ok := pred.Preds[0].Instrs[len(pred.Preds[0].Instrs)-1].(*ssa.If); ok && pred.Preds[0].Succs[0] == pred {
+										if strings.Contains(descVal(ifi.Cond), "crypto/ecdh.P521") {
+											found = true
+										}
+									}
+								}
+							}
+						}
+					}
+				}
+			}
+		}
+	}
+	if found {
+		c.ok(rule, fname(f)+": "+what, "mask = phi(0xFF, 0x01) with 0x01 on the Curve == ecdh.P521() branch", p.fnPos(f))
+	} else {
+		c.bad(rule, fname(f)+": "+what, "bitmask selection not found in the specified form", p.fnPos(f))
+	}
+}
+
+// notReached: under the assumptions, no call to any of the named callees is executable
+// in f or in the circl functions it calls.
+func (c *Ctx) notReached(p *Program, rule, what string, f *ssa.Function, assumes []Assume, callees ...string) {
+	if f == nil {
+		c.undecided(rule, what, "anchor function does not resolve", "")
+		return
+	}
+	set := map[string]bool{}
+	for _, n := range callees {
+		set[normName(n)] = true
+	}
+	q := &GuardQuery{P: p, Root: f, Assumes: assumes}
+	var hits []string
+	q.Observe = func(in *ssa.Function, site ssa.CallInstruction, callee string, _ func(ssa.Value) lat) {
+		if set[normName(callee)] {
+			hits = append(hits, p.pos(site.Pos())+" in "+fname(in))
+		}
+	}
+	r := runGuard(q)
+	for _, a := range assumes {
+		if len(r.Sites[a.Name]) == 0 {
+			c.undecided(rule, fname(f)+": "+what, "assumed call "+a.Name+" not found", p.fnPos(f))
+			return
+		}
+	}
+	if len(hits) > 0 {
+		sort.Strings(hits)
+		c.bad(rule, fname(f)+": "+what, "reachable: "+strings.Join(hits, ", "), p.fnPos(f))
+		return
+	}
+	c.ok(rule, fname(f)+": "+what, "no call to "+strings.Join(callees, "|")+" is executable under the assumption", p.fnPos(f))
+}
+
+// reachCountRule: the number of distinct call sites of each callee that are executable from f
+// (through circl callees) equals the specification's.
+func (c *Ctx) reachCountRule(p *Program, rule, what string, f *ssa.Function, want map[string]int) {
+	if f == nil {
+		c.undecided(rule, what, "anchor function does not resolve", "")
+		return
+	}
+	got := map[string]map[string]bool{}
+	q := &GuardQuery{P: p, Root: f}
+	q.Observe = func(in *ssa.Function, site ssa.CallInstruction, callee string, _ func(ssa.Value) lat) {
+		for w := range want {
+			if normName(w) == normName(callee) {
+				if got[w] == nil {
+					got[w] = map[string]bool{}
+				}
+				got[w][fname(in)+"@"+p.pos(site.Pos())] = true
+			}
+		}
+	}
+	runGuard(q)
+	var bad []string
+	for w, n := range want {
+		if len(got[w]) != n {
+			bad = append(bad, fmt.Sprintf("%d reachable call site(s) of %s, specification has %d", len(got[w]), w, n))
+		}
+	}
+	sort.Strings(bad)
+	if len(bad) > 0 {
+		c.bad(rule, fname(f)+": "+what, strings.Join(bad, "; "), p.fnPos(f))
+		return
+	}
+	c.ok(rule, fname(f)+": "+what, "reachable call-site counts match", p.fnPos(f))
 }
